@@ -5,5 +5,5 @@ git -C /repo apply "$P" || { echo "patch does not apply"; exit 3; }
 trap 'git -C /repo checkout -- . ; git -C /repo clean -fdq' EXIT
 for p in "$@"; do
   VERIF_BUDGET_S=${BUDGET:-25} /verif/bin/check $p quick > /tmp/mut.$p.out 2>&1; rc=$?
-  echo "== $p rc=$rc"; grep -E "^VIOLATION|^violation:|HARNESS|KNOWN" /tmp/mut.$p.out | head -5
+  echo "== $p rc=$rc"; grep -E "^VIOLATION|^violation:|HARNESS" /tmp/mut.$p.out | head -5; grep -c "^KNOWN" /tmp/mut.$p.out | sed "s/^/known-finding lines: /"
 done
